@@ -58,7 +58,13 @@ def strategy_(draw):
     sp["objective"] = [draw(objective_term(sp)) for _ in range(draw(st.integers(1, 4)))]
     # a further term declared after the problem has been transcribed once (the sum is over all add_objective calls, whenever made)
     late = draw(objective_term(sp)) if draw(st.integers(0, 2)) == 0 else None
-    return {"spec": sp, "late_term": late, "rng": draw(st.integers(0, 2**31 - 1))}
+    rng_ = draw(st.integers(0, 2**31 - 1))
+    # several integrals of the same form over different symbols (rockit's unnamed symbols all print alike): each keeps its own integrand
+    lv_ = gen.leaves_of([d for d in sp["states"] if not d.get("quad")]) + gen.leaves_of(sp["controls"])
+    if not sp.get("next") and len(lv_) >= 2 and draw(st.integers(0, 2)) == 0:
+        for j, leaf in enumerate(lv_[:3]):
+            sp["objective"].append(["*", E.C(float(j + 1)), ["int", ["sq", leaf]]])
+    return {"spec": sp, "late_term": late, "rng": rng_}
 
 
 def strategy(tier):
